@@ -132,6 +132,39 @@ def _gate(ck, p, byk):
             if on_config and same:
                 ok = True
         ck.decide(rule, key, ok, f.loc(t["ln"]), detail)
+        # ... and nothing else that reads the switches decides whether this rule runs: a second condition
+        # that asks for ANOTHER rule's switch makes one rule's output depend on toggling another
+        loops = cfg.natural_loops()
+        inner = [(h, body) for h, body in loops.items() if bi in body]
+        if inner:
+            h, body = min(inner, key=lambda x: len(x[1]))
+            foreign = []
+            for gb in body:
+                sw = f.blocks[gb]["t"]
+                if sw["k"] != "switch" or not cfg.dominates(gb, bi) or gb == bi:
+                    continue
+                arms = [x for _, x in sw["targets"]] + ([sw["otherwise"]] if sw.get("otherwise") is not None else [])
+                if all(bi in cfg.reachable_from([a], avoid=[h]) or a == bi for a in arms):
+                    continue          # not a gate of the call
+                roots = arg_roots(f, pv, sw["discr"])
+                for o in roots:
+                    if o[0] != "call":
+                        continue
+                    ct2 = f.blocks[o[1]]["t"]
+                    if is_gate(ct2):
+                        kc = {o2 for o2 in arg_roots(f, pv, ct2["args"][1]) if o2[0] == "call" and method_of(o2) == "next"}
+                        if not (lin_calls and kc == lin_calls):
+                            foreign.append((f.loc(ct2["ln"]), "is_rule_enabled with another key"))
+                    for a in ct2["args"]:
+                        for x in pv.trace_operand(a):
+                            if x[0] == "agg" and x[1] == "closure" and x[2] in p.fns:
+                                for c2 in with_closures(p, p.fns[x[2]]):
+                                    if any(is_gate(t3) for _, t3 in c2.calls()):
+                                        foreign.append((c2.loc(c2.blocks[0]["t"].get("ln", 0)) if c2.blocks else "", "a closure that asks is_rule_enabled"))
+            if foreign:
+                ck.refuted(rule, key + ":own-switch-only", foreign[0][0] or f.loc(t["ln"]), "whether %s runs for a rule also depends on %s (besides the rule's own switch): an enabled rule can be silenced - or revived - by toggling a different rule, so the lints are no longer the combination of what each enabled rule produces on its own" % (what, foreign[0][1]))
+            else:
+                ck.proved(rule, key + ":own-switch-only", f.loc(t["ln"]), "inside the loop no other condition on the way to %s reads a rule switch" % what)
     # is_rule_enabled: get(key).cloned().flatten().unwrap_or(false)
     fs = byk.get("LintGroupConfig::is_rule_enabled")
     if ck.anchor(rule, "LintGroupConfig::is_rule_enabled", fs):
